@@ -133,6 +133,26 @@ func buildMonitor(p *core.Program, lk *Analysis, eff *effects.Analysis, named *t
 		for _, op := range CondOps(fn) {
 			c, ok := condField(op.Cond, named)
 			if !ok {
+				// a helper that is handed the condition variable (`wakeAll(c *sync.Cond)`): its broadcast counts for every
+				// cond of the monitor a caller passes; L4 is judged inside the helper (the lock is the parameter's L)
+				if prm, isPrm := op.Cond.Root.(*ssa.Parameter); isPrm && len(op.Cond.Fields) == 0 && op.Kind != CondWait {
+					idx := -1
+					for i, q := range fn.Params {
+						if q == prm {
+							idx = i
+						}
+					}
+					seenC := map[string]bool{}
+					for _, site := range p.Callers(fn) {
+						if idx < 0 || idx >= len(site.Common().Args) {
+							continue
+						}
+						if c2, ok2 := condField(ir.PathOf(site.Common().Args[idx]), named); ok2 && !seenC[c2] {
+							seenC[c2] = true
+							m.Broadcasts[c2] = append(m.Broadcasts[c2], op)
+						}
+					}
+				}
 				continue
 			}
 			switch op.Kind {
